@@ -2,7 +2,7 @@ import CaoProofs.Lemmas.WfLemmas
 /-!
 # The invariant for whole compilation units (C10)
 -/
-namespace Cao.Compiler
+namespace Cao.Compiler.Wf
 open Cao Cao.Bytecode
 
 theorem Tr.step' {α β : Type} {k : Nat} {K H : Nat → Prop} {Q : α → Prop} {m : CM α} {f : α → CM β}
@@ -90,14 +90,14 @@ theorem addFunctions_spec : ∀ (fs : List FunctionIr) {s s' : CState}, addFunct
       rw [addFunctions_spec fs h2]
       simp
 
-theorem Inv.jumpTable {H : Nat → Prop} {s : CState} (hI : Inv H s) (j : List (String × (UInt32 × UInt32))) :
+theorem _root_.Cao.Compiler.Inv.jumpTable {H : Nat → Prop} {s : CState} (hI : Inv H s) (j : List (String × (UInt32 × UInt32))) :
     Inv H { s with jumpTable := s.jumpTable ++ j } :=
   hI.tables rfl ⟨Nat.le_refl _, fun _ _ => rfl, ⟨#[], by simp⟩, fun _ h => h, fun _ h => h, Nat.le_refl _,
     fun e he => List.mem_append_left _ he⟩ (fun l hl => .inl hl) (fun _ h => h)
     (hI.aux.of_eq rfl rfl rfl rfl rfl (Nat.le_refl _))
 
 /-- the initial state satisfies the invariant -/
-theorem Inv.init : Inv (fun _ => False) ({} : CState) := by
+theorem _root_.Cao.Compiler.Inv.init : Inv (fun _ => False) ({} : CState) := by
   refine ⟨.nil _, ?_, ?_, ?_, ?_⟩
   · intro p n _ h; simp at h
   · intro l hl; cases hl
@@ -152,4 +152,4 @@ theorem compileUnit_spec {unit : Array FunctionIr} {s' : CState}
       obtain ⟨ls, hls⟩ := r9.labels
       exact ⟨l, by show l ∈ s9.labels; rw [hls]; exact List.mem_append_left _ hl, e⟩
 
-end Cao.Compiler
+end Cao.Compiler.Wf
